@@ -191,4 +191,27 @@ def live_object_dev(make, changes, outputs=('psd', 'ar', 'reflection', 'rho', 'm
                 return float('inf')
             sc = max(float(np.max(np.abs(b))), 1e-300)
             worst = max(worst, float(np.max(np.abs(a - b))) / sc)
+    # ... and a new record of the same length assigned to the live (already evaluated) object: the model is that of an
+    # object that was given the record before it ever computed anything
+    try:
+        new = np.asarray(p.data)[::-1] * 1.5 + 0.25
+        q = make(**kw)
+        q.data = new.copy()
+        fresh = np.array(q.psd)
+    except Exception:
+        return worst
+    p.data = new.copy()
+    live = np.array(p.psd)
+    if live.shape != fresh.shape:
+        return float('inf')
+    pairs = [(live, fresh)]
+    for o in outputs[1:]:
+        a, b = getattr(p, o, None), getattr(q, o, None)
+        if a is not None and b is not None:
+            pairs.append((np.atleast_1d(np.asarray(a)), np.atleast_1d(np.asarray(b))))
+    for a, b in pairs:
+        if a.shape != b.shape:
+            return float('inf')
+        sc = max(float(np.max(np.abs(b))), 1e-300)
+        worst = max(worst, float(np.max(np.abs(a - b))) / sc)
     return worst
